@@ -36,4 +36,9 @@ TEXT = {
         "level": "Exploration: every single edit on every document of <=4 (quick) / <=6 (thorough) characters over {a,LF} with every ordered range up to 2 beyond the document and 5 replacement texts is enumerated completely, and rapid generates long multi-byte documents with sequences of up to 40 open/full-replace/incremental edits including out-of-range positions; after every step Document.String() is compared with an independent byte-splice model using LSP clamping. This is the right level because the document type is a pure function of the edit history and small documents already exercise every branch (insert/delete/overwrite/whole-document, clamping).",
         "note": "Trusted: the byte-splice model and its clamping rule (line beyond end -> end of document, column beyond line -> line end). Columns are bytes at rune boundaries; ranges are ordered as LSP requires. Does not prove absence for documents larger than the enumerated bound.",
     },
+    "C20": {
+        "technique": "rapid grammar-generated HTML documents x encodings x headers through a real loopback proxy, DOM-differential and byte-identity oracles",
+        "level": "Exploration: generated exchanges (document grammar with doctype/head/body variants, nested content, existing scripts/styles/comments, entities, non-ASCII, sizes up to several MiB; encodings none/gzip/br/deflate/zstd/junk; content types; CSP shapes; HX-Request; skip marker; Content-Length vs chunked backend) go backend -> proxy.New -> client over loopback HTTP. For HTML in identity/gzip/br the client-decoded body must parse to the original DOM plus exactly one reload script (with the first script-src nonce) as last child of body and Content-Length must equal the bytes received; every other class must arrive byte-identical with unchanged headers.",
+        "note": "Trusted: golang.org/x/net/html's parser for DOM comparison (also used by the proxy, so the oracle compares documents, it does not validate the parser), the harness's own CSP nonce reading, gzip/brotli decoders.",
+    },
 }
